@@ -469,6 +469,28 @@ class ExprEmitter(ExpressionWriter):
         raise DecyError("DeCy: unsupported expression node %s at %s" % (type(node).__name__, getattr(node, "pos", None)))
 
 
+def _delegate_to_expr_emitter():
+    """Statements that the stock CodeWriter renders itself (if / while / return /
+    for ...) visit their expressions with the *statement* writer, i.e. with the
+    stock expression methods - which e.g. drop the tail of a cascaded comparison
+    (`0 < a < b` came out as `0 < a`) and render (x,) as (x).  Route every
+    expression node type that ExprEmitter overrides through ExprEmitter."""
+
+    def make(name):
+        def f(self, node):
+            self.put(self.expr(node))
+
+        f.__name__ = name
+        return f
+
+    for name in list(vars(ExprEmitter)):
+        if name.startswith("visit_") and name != "visit_Node" and name not in vars(Emitter):
+            setattr(Emitter, name, make(name))
+
+
+_delegate_to_expr_emitter()
+
+
 def _collect_decls(tree, typedefs, class_attrs):
     for st in tree.body.stats if isinstance(tree.body, Nodes.StatListNode) else [tree.body]:
         if isinstance(st, Nodes.CTypeDefNode):
